@@ -271,7 +271,8 @@ def parse_verus_errors(stderr, text):
             continue
         locs = [int(x) for x in re.findall(r"-->\s*[^\s:]+:(\d+):\d+", b)]
         # lines shown in the snippet with a marker
-        snippet_lines = [(int(a), t) for a, t in re.findall(r"\n\s*(\d+)\s*\|(.*)", b)]
+        # (the `note:` parts that may follow - e.g. trigger reports - quote unrelated lines: not part of the verdict)
+        snippet_lines = [(int(a), t) for a, t in re.findall(r"\n\s*(\d+)\s*\|(.*)", re.split(r"\nnote:", b)[0])]
         is_verdict = any(msg.startswith(v) for v in VERDICTS)
         if not is_verdict:
             hard.append(b[:1500])
